@@ -53,6 +53,15 @@ pub struct RawProgram {
     pub publics: Vec<u16>,
 }
 
+/// A raw op that elaborates to the given op kind (inverse of the `frac` mapping used by `St::op`).
+pub fn raw_op_of_kind(kind: usize, a: u16, b: u16, c: u16, k: u64) -> RawOp {
+    const NKINDS: usize = 71;
+    let raw = (((kind as u32) << 16) / NKINDS as u32 + 1) as u16;
+    debug_assert_eq!(frac(raw, NKINDS), kind);
+    RawOp { kind: raw, a, b, c, k }
+}
+pub const KIND_LOOKUP: usize = 55;
+
 pub fn raw_op() -> BoxedStrategy<RawOp> {
     (any::<u16>(), any::<u16>(), any::<u16>(), any::<u16>(), prop_oneof![2 => canonical(), 1 => 0u64..300])
         .prop_map(|(kind, a, b, c, k)| RawOp { kind, a, b, c, k })
